@@ -3,20 +3,29 @@
 Tie: a logging data-frame proxy (and logging proxies around h5py / pyarrow file objects) is
 handed to the real Catalog.from_dataframe / from_file; the logged request list is compared
 inside Coq with Model/Chunks.v:slices (c18_case), for every pass.
+
+The same creations are also run with 2, 3 and 4 workers on the controllable pool (harness/sim/pool.py): the
+reader stays in the calling process, so the proxies keep logging; the model's requests do not depend on the
+number of workers (Model/ChunksBuf.v:pool_steps, C18_pool_requests_worker_independent), and the tasks of every
+Pool.map call are compared with np.array_split of the requested slice (c18_pool_case).
 """
 import os
+import shutil
 
 import numpy as np
 
 from lib import floatq as fq
 from lib import impl
+from sim import pool as simpool
 
 ALLOWED_AXIOMS = []
 TRUSTED = [
     "logging proxies (harness side) around the data frame, h5py.File datasets and pyarrow ParquetFile; FITS access is not logged (astropy memory-maps the table; library behaviour)",
+    "simulated multiprocessing (harness/sim/pool.py) for the runs with 2-4 workers: Pool.map executes the tasks of one chunk in the calling process in a harness-chosen order, the writer process runs at join(); the sizes of the tasks of every Pool.map call are logged by a subclass of the simulated pool",
 ]
 ASSUMPTIONS = ["a new pass is recognised by a request that starts again at row 0"]
-RULE = ("cases = (source, n, cs, patch mode incl. generated centres = 2 passes); distinct by that tuple; "
+RULE = ("cases = (source, n, cs, patch mode incl. generated centres = 2 passes, workers 1 | 2-4 on the simulated pool, "
+        "route by which the worker count is given); distinct by that tuple; "
         "non-trivial when n > cs (more than one request per pass)")
 HEADER = "From Verif Require Import Prelude Chunks ChunksBuf Writer.\nOpen Scope nat_scope.\n"
 
@@ -99,6 +108,148 @@ class ProxyH5:
         self.f.close()
 
 
+class LoggingPool(simpool.FakePool):
+    """the simulated pool, additionally recording the sizes of the tasks of every Pool.map call"""
+
+    def map(self, func, items):
+        items = list(items)
+        self.mp.map_calls.append([len(x) for x in items])
+        for hook in self.mp.on_map:
+            hook(items)
+        return super().map(func, items)
+
+
+class LoggingMP(simpool.FakeMP):
+    def __init__(self, schedule=None):
+        super().__init__(schedule)
+        self.map_calls, self.on_map = [], []
+
+    def Pool(self, n=None):
+        return LoggingPool(self, n)
+
+
+class _NoPool:
+    """sequential run: nothing is patched"""
+    pool_sizes, map_calls, process_exits = (), (), ()
+
+    def __init__(self):
+        self.on_map = []
+
+    def __enter__(self):
+        return self
+
+    def __exit__(self, *a):
+        return False
+
+
+def pool_ctx(workers, order, seed):
+    if not workers:
+        return _NoPool()
+    p = simpool.patched(simpool.Schedule(order, seed=seed))
+    p.mp = LoggingMP(p.mp.schedule)
+    return p
+
+
+def worker_arg(workers, via):
+    """max_workers argument for `workers` effective workers (0 = sequential), given explicitly or through
+    YAW_NUM_THREADS (max_workers=None)"""
+    if not workers:
+        impl.set_threads(1)
+        return 1
+    if via == "env":
+        impl.set_threads(workers)
+        return None
+    impl.set_threads(16)
+    return workers
+
+
+def is_empty_patch_refusal(err, mp):
+    """a given centre attracted no record: creation must refuse (C09/C12), not a valid input here"""
+    texts = [str(err)] + [x[1] for x in getattr(mp, "process_exits", ())]
+    return any("contains no data" in t or "patch centers and patch IDs with data do not match" in t for t in texts)
+
+
+class parquet_logged:
+    """replace `parquet` in yaw.catalog.readers by a transparent logging proxy of pyarrow's ParquetFile
+    (anything not logged is forwarded); reqs receives the indices of the requested row groups"""
+
+    def __init__(self, readers, reqs):
+        self.readers, self.reqs = readers, reqs
+
+    def __enter__(self):
+        orig = self.orig = self.readers.parquet
+        reqs = self.reqs
+
+        class _PF:
+            def __init__(self, p, *a, **k):
+                self._f = orig.ParquetFile(p, *a, **k)
+
+            def __getattr__(self, name):
+                return getattr(self._f, name)
+
+            def read_row_group(self, i, *a, **k):
+                reqs.append(int(i))
+                return self._f.read_row_group(i, *a, **k)
+
+            def read_row_groups(self, idx, *a, **k):
+                idx = [int(i) for i in idx]
+                reqs.extend(idx)
+                return self._f.read_row_groups(idx, *a, **k)
+
+            def __enter__(self):
+                return self
+
+            def __exit__(self, *exc):
+                self._f.close()
+
+        class _PQ:
+            ParquetFile = _PF
+
+            def __getattr__(self, name):
+                return getattr(orig, name)
+        self.readers.parquet = _PQ()
+        return self
+
+    def __exit__(self, *exc):
+        self.readers.parquet = self.orig
+        return False
+
+
+def write_parquet(path, table, rg, gsizes):
+    import pyarrow.parquet as pq
+    if gsizes is None:
+        pq.write_table(table, path, row_group_size=rg)
+    else:
+        with pq.ParquetWriter(path, table.schema) as wr:
+            at = 0
+            for g in gsizes:
+                wr.write_table(table.slice(at, g), row_group_size=g)
+                at += g
+    md = pq.ParquetFile(path).metadata
+    return [md.row_group(i).num_rows for i in range(md.num_row_groups)]
+
+
+def pool_combos(ctx, rng):
+    """(n, cs, workers) for the runs on the pool: chunk sizes that are NOT multiples of the worker count (smaller
+    and larger than it) with n beyond one chunk, plus a few multiples as controls"""
+    out = []
+    for w in (2, 3, 4):
+        css = [c for c in (1, 2, 3, 5, 6, 7, 9, 10, 16) if c % w]
+        if ctx.quick():
+            css = [c for c in css if c < w][-1:] + rng.sample([c for c in css if c > w], 3)
+        for cs in css:
+            ns = [cs + 1, 2 * cs + 1, 5 * cs + 2, rng.choice([cs, 2 * cs, 3 * cs - 1 if cs > 1 else 3, 4 * cs + 3])]
+            for n in sorted(set(ns)):
+                out.append((n, cs, w))
+        for cs in (w, 2 * w):                      # controls: the worker count divides the chunk size
+            out.append((rng.choice([cs + 1, 2 * cs, 3 * cs + 1]), cs, w))
+    if not ctx.quick():
+        grid = [(n, cs, w) for n in range(1, 61) for cs in range(1, 21) for w in (2, 3, 4)]
+        rng.shuffle(grid)
+        out += grid[:150]
+    return out
+
+
 def split_passes(log, n):
     passes, cur = [], None
     for kind, a, b in log:
@@ -126,34 +277,47 @@ def run(ctx):
         combos = combos + grid[:200]
     idx = 0
     impl.set_threads(1)
-    for (n, cs) in combos:
-        for rep in range(reps):
+    modes3 = ["create", "centers", "name"]
+    plan = [(n, cs, 0) for (n, cs) in combos for _ in range(reps)]
+    plan += [(n, cs, w) for (n, cs, w) in pool_combos(ctx, rng) for _ in range(ctx.n(1, 2))]
+    for k, (n, cs, workers) in enumerate(plan):
+        if workers:
+            # on the pool every source and patch mode comes round (generated centres = a probing and a writing pass)
+            src = ["df", "hdf5"][(k // 3) % 2] if rng.random() < 0.8 else rng.choice(["df", "hdf5"])
+            mode = modes3[k % 3] if n >= 4 else modes3[1 + k % 2]
+            via = "env" if rng.random() < 0.25 else "arg"
+            order = rng.choice(["random", "reverse", "identity"])
+        else:
             src = rng.choice(["df", "df", "hdf5"])
             mode = rng.choice(["centers", "name", "create"]) if n >= 4 else rng.choice(["centers", "name"])
-            ra = np.asarray([10.0 + (i * 37 % 101) / 4.0 for i in range(n)])
-            dec = np.asarray([-5.0 + (i * 53 % 89) / 8.0 for i in range(n)])
-            cols = {"ra": ra, "dec": dec, "pid": np.asarray([i % 2 for i in range(n)])}
-            kwargs = dict(ra_name="ra", dec_name="dec", chunksize=cs, max_workers=1)
-            passes_expected = 1
-            if mode == "centers":
-                kwargs["patch_centers"] = impl.AngularCoordinates(np.deg2rad([[15.0, 0.0], [30.0, 3.0]]))
-            elif mode == "name":
-                kwargs["patch_name"] = "pid"
-            else:
-                kwargs["patch_num"] = 2
-                passes_expected = 2
-            log = []
-            cache = impl.fresh_dir(ctx, "cat")
-            err = None
-            try:
+            via, order = "arg", None
+        pseed = rng.randrange(10 ** 6)
+        ra = np.asarray([10.0 + (i * 37 % 101) / 4.0 for i in range(n)])
+        dec = np.asarray([-5.0 + (i * 53 % 89) / 8.0 for i in range(n)])
+        cols = {"ra": ra, "dec": dec, "pid": np.asarray([i % 2 for i in range(n)])}
+        kwargs = dict(ra_name="ra", dec_name="dec", chunksize=cs, max_workers=worker_arg(workers, via))
+        passes_expected = 1
+        if mode == "centers":
+            kwargs["patch_centers"] = impl.AngularCoordinates(np.deg2rad([[15.0, 0.0], [30.0, 3.0]]))
+        elif mode == "name":
+            kwargs["patch_name"] = "pid"
+        else:
+            kwargs["patch_num"] = 2
+            passes_expected = 2
+        log = []
+        cache = impl.fresh_dir(ctx, "cat")
+        err = None
+        pc = pool_ctx(workers, order, pseed)
+        try:
+            with pc as mp:
                 if src == "df":
                     impl.Catalog.from_dataframe(cache, ProxyFrame(impl.make_df(cols), log), **kwargs)
                 else:
                     import h5py
                     path = os.path.join(ctx.workdir, "src.hdf5")
                     with h5py.File(path, "w") as f:
-                        for k, v in cols.items():
-                            f.create_dataset(k, data=v)
+                        for kk, v in cols.items():
+                            f.create_dataset(kk, data=v)
                     orig = readers.h5py
 
                     class _H5:
@@ -166,41 +330,55 @@ def run(ctx):
                     finally:
                         readers.h5py = orig
                         os.unlink(path)
-            except Exception as e:
-                err = e
-            import shutil
-            shutil.rmtree(cache, ignore_errors=True)
-            spec = dict(n=n, cs=cs, src=src, mode=mode)
-            ctx.count(key=(n, cs, src, mode), nontrivial=n > cs, kind="%s/%s" % (src, mode))
-            if err is not None:
-                # empty centre etc. are C09/C12 matters; here only valid inputs are generated
-                if mode == "centers" and isinstance(err, ValueError) and ("contains no data" in str(err) or "patch centers and patch IDs with data do not match" in str(err)):
-                    # a given centre attracted no record: creation must refuse (C09/C12), not a valid input here
-                    ctx.bump("skipped_empty_patch")
-                    continue
-                ctx.fail("c18-raises:%s" % type(err).__name__, "valid creation raised %r" % err, spec, case=idx)
-                idx += 1
+        except Exception as e:
+            err = e
+        finally:
+            impl.set_threads(1)
+        shutil.rmtree(cache, ignore_errors=True)
+        eff_w = (mp.pool_sizes[0] or 1) if mp.pool_sizes else 1   # workers the implementation actually used
+        tasks = [list(t) for t in mp.map_calls]
+        spec = dict(n=n, cs=cs, src=src, mode=mode, workers=workers, via=via, order=order, pool_seed=pseed)
+        ctx.count(key=(n, cs, src, mode, workers, via), nontrivial=n > cs,
+                  kind="%s/%s%s" % (src, mode, "/pool%d" % workers if workers else ""))
+        if workers:
+            ctx.bump("pool:cs_mod_w_%s,n_%s_cs" % ("zero" if cs % workers == 0 else "nonzero", "gt" if n > cs else "le"))
+            if eff_w != workers:
+                ctx.bump("pool:workers_limited_by_environment")
+        if err is not None:
+            # empty centre etc. are C09/C12 matters; here only valid inputs are generated
+            if mode == "centers" and isinstance(err, (ValueError, RuntimeError)) and is_empty_patch_refusal(err, mp):
+                ctx.bump("skipped_empty_patch")
                 continue
-            eff_cs = cs  # DataReader.__init__ overwrites the min(n, cs) set by the file readers
-            passes = split_passes(log, n)
-            if passes is None:
-                odd = [l for l in log if l[0] != "rows"]
-                if any(l[0] == "column" for l in odd):
-                    ctx.fail("c18-whole-input", "the source was asked for a whole column at once: %s" % odd[:3],
-                             dict(spec, log=log[:20]), case=idx)
-                else:
-                    # an access path whose extent the logging proxy cannot see: the tie is broken, nothing is shown
-                    ctx.disagree("c18-access-path-not-observable", idx, dict(spec, log=log[:20]))
-                idx += 1
-                continue
-            raw_ok = all((b - a) <= eff_cs for p in passes for a, b in p)
-            clipped = [[(a, min(b, n)) for a, b in p] for p in passes]
-            terms.append("(c18_case %s %s %s %s + (if %s then 0 else 8))" % (
-                fq.nat(n), fq.nat(eff_cs), fq.nat(passes_expected),
-                fq.lst([fq.lst([fq.pair(fq.nat(a), fq.nat(b)) for a, b in p]) for p in clipped]), fq.b(raw_ok)))
-            metas.append((idx, dict(spec, log=log[:40])))
-            ctx.sample(dict(spec, requests=clipped), limit=3)
+            ctx.fail("c18-raises:%s" % type(err).__name__, "valid creation raised %r (writer process: %s)"
+                     % (err, list(mp.process_exits)), spec, case=idx)
             idx += 1
+            continue
+        eff_cs = cs  # DataReader.__init__ overwrites the min(n, cs) set by the file readers
+        passes = split_passes(log, n)
+        if passes is None:
+            odd = [l for l in log if l[0] != "rows"]
+            if any(l[0] == "column" for l in odd):
+                ctx.fail("c18-whole-input", "the source was asked for a whole column at once: %s" % odd[:3],
+                         dict(spec, log=log[:20]), case=idx)
+            else:
+                # an access path whose extent the logging proxy cannot see: the tie is broken, nothing is shown
+                ctx.disagree("c18-access-path-not-observable", idx, dict(spec, log=log[:20]))
+            idx += 1
+            continue
+        raw_ok = all((b - a) <= eff_cs for p in passes for a, b in p)
+        clipped = [[(a, min(b, n)) for a, b in p] for p in passes]
+        logterm = fq.lst([fq.lst([fq.pair(fq.nat(a), fq.nat(b)) for a, b in p]) for p in clipped])
+        if mp.pool_sizes:
+            terms.append("(c18_pool_case %s %s %s %s %s %s + (if %s then 0 else 32))" % (
+                fq.nat(eff_w), fq.nat(n), fq.nat(eff_cs), fq.nat(passes_expected), logterm,
+                fq.lst([fq.nlist(t) for t in tasks]), fq.b(raw_ok)))
+            metas.append((idx, dict(spec, pool=True, effective_workers=eff_w, log=log[:40], tasks=tasks[:40])))
+        else:
+            terms.append("(c18_case %s %s %s %s + (if %s then 0 else 8))" % (
+                fq.nat(n), fq.nat(eff_cs), fq.nat(passes_expected), logterm, fq.b(raw_ok)))
+            metas.append((idx, dict(spec, log=log[:40])))
+        ctx.sample(dict(spec, requests=clipped, tasks=tasks[:6]), limit=3)
+        idx += 1
     # get_probe bookkeeping: rows returned for a probe of size k = the linspace indices
     for (n, cs, k) in [(10, 3, 4), (17, 5, 17), (9, 2, 3), (20, 7, 6), (5, 5, 2), (12, 4, 1)][: ctx.n(4, 6)]:
         log = []
@@ -224,7 +402,6 @@ def run(ctx):
     #      order, only as far as needed for the next chunk, and deliver exactly the chunks of the model
     #      (Model/Chunks.v: parquet_chunks = chunks of the concatenated row groups, C02_parquet_chunks)
     import pyarrow as pa
-    import pyarrow.parquet as pq
     layouts = [(10, 4, 3), (12, 5, 12), (9, 2, 1), (20, 7, 6), (7, 3, 4), (11, 4, 4), (13, 5, 2), (1000, 250, 300), (6, 8, 4)]
     # files written incrementally: row groups of unequal sizes (first group larger / smaller than later ones)
     uneven = [(30, [30, 30, 10, 10, 10, 10]), (4, [5, 1, 1, 1, 3, 2]), (6, [2, 9, 1, 7]), (3, [8, 1, 1, 1, 1])]
@@ -239,61 +416,22 @@ def run(ctx):
     for (n, cs, rg, gsizes) in jobs:
         path = os.path.join(ctx.workdir, "src.pqt")
         table = pa.table({"ra": np.arange(n, dtype="f8"), "dec": np.zeros(n)})
-        if gsizes is None:
-            pq.write_table(table, path, row_group_size=rg)
-        else:
+        if gsizes is not None:
             rg = 0
-            with pq.ParquetWriter(path, table.schema) as wr:
-                at = 0
-                for g in gsizes:
-                    wr.write_table(table.slice(at, g), row_group_size=g)
-                    at += g
-        groups = [pq.ParquetFile(path).metadata.row_group(i).num_rows for i in range(pq.ParquetFile(path).metadata.num_row_groups)]
+        groups = write_parquet(path, table, rg, gsizes)
         reqs = []
-        orig = readers.parquet
-
-        class _PF:
-            """transparent logging proxy of pyarrow's ParquetFile (anything not logged is forwarded)"""
-
-            def __init__(self, p, *a, **k):
-                self._f = orig.ParquetFile(p, *a, **k)
-
-            def __getattr__(self, name):
-                return getattr(self._f, name)
-
-            def read_row_group(self, i, *a, **k):
-                reqs.append(int(i))
-                return self._f.read_row_group(i, *a, **k)
-
-            def read_row_groups(self, idx, *a, **k):
-                idx = [int(i) for i in idx]
-                reqs.extend(idx)
-                return self._f.read_row_groups(idx, *a, **k)
-
-            def __enter__(self):
-                return self
-
-            def __exit__(self, *exc):
-                self._f.close()
-
-        class _PQ:
-            ParquetFile = _PF
-
-            def __getattr__(self, name):
-                return getattr(orig, name)
-        readers.parquet = _PQ()
         perr = None
         chunks = []
         marks = []           # valid row-group requests made up to the delivery of each chunk
         try:
-            with readers.ParquetReader(path, ra_name="ra", dec_name="dec", chunksize=cs, degrees=False) as rd:
-                for c in rd:
-                    chunks.append([int(round(x)) for x in c["ra"]])
-                    marks.append(len([r for r in reqs if r < len(groups)]))
+            with parquet_logged(readers, reqs):
+                with readers.ParquetReader(path, ra_name="ra", dec_name="dec", chunksize=cs, degrees=False) as rd:
+                    for c in rd:
+                        chunks.append([int(round(x)) for x in c["ra"]])
+                        marks.append(len([r for r in reqs if r < len(groups)]))
         except Exception as e:  # noqa: BLE001 - reading a valid file must not raise
             perr = e
         finally:
-            readers.parquet = orig
             os.unlink(path)
         if perr is not None:
             ctx.count(key=("parquet", n, cs, rg), kind="parquet/raised")
@@ -315,9 +453,173 @@ def run(ctx):
             fq.nat(cs), fq.nlist(groups), fq.nlist(loads)))
         metas.append((idx, dict(parquet=(n, cs, rg), groups=groups, chunk_lens=lens, requests=reqs, loads_per_chunk=loads)))
         idx += 1
+    # ---- Parquet through Catalog.from_file on the pool (2-4 workers): the chunks the reader delivers are what
+    #      Pool.map receives (np.array_split of the chunk); same model as above for chunk lengths, row-group
+    #      requests per delivered chunk and buffer bound, for every worker count
+    pjobs = []
+    for w in (2, 3, 4):
+        for _ in range(ctx.n(4, 20)):
+            cs = rng.choice([c for c in range(2, 14) if c % w])
+            if rng.random() < 0.5:
+                n_, rg_, g_ = rng.randrange(cs + 1, 6 * cs + 3), rng.choice([1, max(1, cs - 1), cs, cs + 1, 2 * cs + 1, rng.randrange(1, 15)]), None
+            else:
+                g_ = [rng.randrange(1, 12) for _ in range(rng.randrange(2, 8))]
+                n_, rg_ = sum(g_), None
+            pjobs.append((n_, cs, rg_, g_, w))
+        pjobs.append((3 * 2 * w + 1, 2 * w, w + 1, None, w))          # control: w divides cs
+    for k, (n, cs, rg, gsizes, workers) in enumerate(pjobs):
+        mode = modes3[k % 3] if n >= 4 else modes3[1 + k % 2]
+        via = "env" if rng.random() < 0.25 else "arg"
+        order, pseed = rng.choice(["random", "reverse", "identity"]), rng.randrange(10 ** 6)
+        ra = np.deg2rad(np.asarray([10.0 + (i * 37 % 101) / 4.0 + (i // 101) / 64.0 for i in range(n)]))
+        dec = np.deg2rad(np.asarray([-5.0 + (i * 53 % 89) / 8.0 for i in range(n)]))
+        table = pa.table({"ra": ra, "dec": dec, "pid": np.asarray([i % 2 for i in range(n)])})
+        path = os.path.join(ctx.workdir, "src.pqt")
+        if gsizes is not None:
+            rg = 0
+        groups = write_parquet(path, table, rg, gsizes)
+        kwargs = dict(ra_name="ra", dec_name="dec", degrees=False, chunksize=cs, max_workers=worker_arg(workers, via))
+        passes_expected = 1
+        if mode == "centers":
+            kwargs["patch_centers"] = impl.AngularCoordinates(np.deg2rad([[15.0, 0.0], [30.0, 3.0]]))
+        elif mode == "name":
+            kwargs["patch_name"] = "pid"
+        else:
+            kwargs["patch_num"] = 2
+            passes_expected = 2
+        reqs, marks, seen = [], [], []
+        cache = impl.fresh_dir(ctx, "cat")
+        perr = None
+        pc = pool_ctx(workers, order, pseed)
+        try:
+            with pc as mp, parquet_logged(readers, reqs):
+                mp.on_map.append(lambda items: (marks.append(len(reqs)), seen.extend(float(x) for it in items for x in it["ra"])))
+                impl.Catalog.from_file(cache, path, **kwargs)
+        except Exception as e:  # noqa: BLE001
+            perr = e
+        finally:
+            impl.set_threads(1)
+            os.unlink(path)
+        shutil.rmtree(cache, ignore_errors=True)
+        eff_w = (mp.pool_sizes[0] or 1) if mp.pool_sizes else 1
+        tasks = [list(t) for t in mp.map_calls]
+        spec = dict(parquet_pool=(n, cs, rg), groups=groups, mode=mode, workers=workers, via=via, order=order, pool_seed=pseed)
+        ctx.count(key=("parquet-pool", n, cs, tuple(groups), mode, workers, via), nontrivial=len(groups) > 1 and n > cs,
+                  kind="parquet/%s/pool%d" % (mode, workers))
+        ctx.bump("pool:cs_mod_w_%s,n_%s_cs" % ("zero" if cs % workers == 0 else "nonzero", "gt" if n > cs else "le"))
+        if perr is not None:
+            if mode == "centers" and isinstance(perr, (ValueError, RuntimeError)) and is_empty_patch_refusal(perr, mp):
+                ctx.bump("skipped_empty_patch")
+                continue
+            ctx.fail("c18-raises:%s" % type(perr).__name__, "creating a catalog from a valid Parquet file raised %r (writer process: %s)"
+                     % (perr, list(mp.process_exits)), dict(spec, requests=reqs), case=idx)
+            idx += 1
+            continue
+        if not mp.pool_sizes:
+            ctx.bump("pool:workers_limited_by_environment")     # sequential after all: chunks not observable here
+            continue
+        # passes over the file: a request of row group 0 starts one; the reader may probe one index past the end
+        starts = [i for i, r in enumerate(reqs) if r == 0]
+        pass_reqs = [[r for r in reqs[a:b] if r < len(groups)] for a, b in zip(starts, starts[1:] + [len(reqs)])]
+        reqs_ok = bool(starts) and starts[0] == 0 and all(p == list(range(len(groups))) for p in pass_reqs)
+        last = starts[-1] if starts else 0
+        cum = [len([r for r in reqs[last:m] if r < len(groups)]) for m in marks]
+        loads = [b - a for a, b in zip([0] + cum[:-1], cum)]
+        lens = [sum(t) for t in tasks]
+        rows_ok = seen == [float(x) for x in ra]
+        # flags: chunk lengths = model; every row handed over once, in order; every row group once per pass, in order;
+        # row groups requested per delivered chunk = model (+ buffer bound); chunks of 1..cs rows covering the file;
+        # tasks = np.array_split of the chunk; number of passes
+        terms.append("code [c02_parquet_agree %s %s %s; %s; %s; Nat.eqb (c18_parquet_loads_case %s %s %s) 0; "
+                     "c18_lens_bounded %s %s %s; c18_tasks_agree %s %s %s; %s]" % (
+                         fq.nat(cs), fq.nlist(groups), fq.nlist(lens), fq.b(rows_ok), fq.b(reqs_ok),
+                         fq.nat(cs), fq.nlist(groups), fq.nlist(loads),
+                         fq.nat(cs), fq.nlist(groups), fq.nlist(lens),
+                         fq.nat(eff_w), fq.nlist(lens), fq.lst([fq.nlist(t) for t in tasks]),
+                         fq.b(len(pass_reqs) == passes_expected)))
+        metas.append((idx, dict(spec, effective_workers=eff_w, chunk_lens=lens, requests=reqs, loads_per_chunk=loads,
+                                tasks=tasks[:40])))
+        idx += 1
+    # ---- the random generator as a source, on the pool: sizes of the generator calls of the writing pass
+    #      (Model/Chunks.v:random_sizes = lengths of the model's slices, the same for every worker count)
+    from yaw.randoms import BoxRandoms
+
+    class LoggedBox(BoxRandoms):
+        """BoxRandoms recording the size of every call; behaviour unchanged"""
+        sizes = None
+
+        def __call__(self, probe_size):
+            self.sizes.append(int(probe_size))
+            return super().__call__(probe_size)
+    for k in range(ctx.n(9, 45)):
+        workers = (2, 3, 4)[k % 3]
+        cs = rng.choice([c for c in (1, 2, 3, 5, 6, 7, 9, 10, 13) if c % workers]) if k % 5 else 2 * workers
+        n = rng.choice([cs + 1, 2 * cs + 1, 3 * cs, 5 * cs + 2, rng.randrange(8, 60)])
+        n = max(n, 8)
+        via = "env" if rng.random() < 0.25 else "arg"
+        order, pseed = rng.choice(["random", "reverse", "identity"]), rng.randrange(10 ** 6)
+        gen = LoggedBox(10.0, 35.0, -5.0, 6.0, seed=pseed)
+        gen.sizes = sizes = []
+        cache = impl.fresh_dir(ctx, "cat")
+        rerr = None
+        mw = worker_arg(workers, via)
+        pc = pool_ctx(workers, order, pseed)
+        try:
+            with pc as mp:
+                impl.Catalog.from_random(cache, gen, n, chunksize=cs, max_workers=mw,
+                                         patch_centers=impl.AngularCoordinates(np.deg2rad([[15.0, 0.0], [30.0, 3.0]])))
+        except Exception as e:  # noqa: BLE001
+            rerr = e
+        finally:
+            impl.set_threads(1)
+        shutil.rmtree(cache, ignore_errors=True)
+        eff_w = (mp.pool_sizes[0] or 1) if mp.pool_sizes else 1
+        tasks = [list(t) for t in mp.map_calls]
+        spec = dict(random_pool=(n, cs), workers=workers, via=via, order=order, pool_seed=pseed)
+        ctx.count(key=("random-pool", n, cs, workers, via), nontrivial=n > cs, kind="random/centers/pool%d" % workers)
+        ctx.bump("pool:cs_mod_w_%s,n_%s_cs" % ("zero" if cs % workers == 0 else "nonzero", "gt" if n > cs else "le"))
+        if rerr is not None:
+            if isinstance(rerr, (ValueError, RuntimeError)) and is_empty_patch_refusal(rerr, mp):
+                ctx.bump("skipped_empty_patch")
+                continue
+            ctx.fail("c18-raises:%s" % type(rerr).__name__, "creating a catalog from a random generator raised %r (writer process: %s)"
+                     % (rerr, list(mp.process_exits)), spec, case=idx)
+            idx += 1
+            continue
+        # flags: call sizes = model; calls of 1..cs records adding up to n; tasks = np.array_split of each chunk
+        terms.append("code [c16_sizes_agree %s %s %s; c18_lens_bounded %s [%s] %s; %s]" % (
+            fq.nat(n), fq.nat(cs), fq.nlist(sizes), fq.nat(cs), fq.nat(n), fq.nlist(sizes),
+            ("c18_tasks_agree %s %s %s" % (fq.nat(eff_w), fq.nlist(sizes), fq.lst([fq.nlist(t) for t in tasks])))
+            if mp.pool_sizes else "true"))
+        metas.append((idx, dict(spec, effective_workers=eff_w, call_sizes=sizes, tasks=tasks[:40])))
+        idx += 1
     codes = ctx.shards("Cases_C18", HEADER, terms, shard=100)
     for (i, meta), c in zip(metas, codes):
         if not c:
+            continue
+        if "random_pool" in meta:
+            if c & 2:
+                n_, cs_ = meta["random_pool"]
+                ctx.fail("c18-requests", "the generator was not asked for consecutive portions of 1..%d records adding up to %d: %s"
+                         % (cs_, n_, meta["call_sizes"][:12]), meta, case=i)
+            if c & 1 or c & 4:
+                ctx.disagree("Cases_C18:random-pool", i, dict(code=c, meta=meta))
+            continue
+        if "parquet_pool" in meta:
+            if c & 2 or c & 4 or c & 64:
+                ctx.fail("c18-requests", "row groups are not requested once per pass in file order / rows not handed over once "
+                         "in order (code %d)" % c, meta, case=i)
+            if c & 16:
+                ctx.fail("c18-parquet-chunks", "the reader delivered chunks of %s rows for a chunk size of %d (file of %d rows)"
+                         % (meta["chunk_lens"][:12], meta["parquet_pool"][1], meta["parquet_pool"][0]), meta, case=i)
+            if (c & 8) and not (c & (2 | 4 | 16 | 64)):
+                g, marks_ = meta["groups"], meta["loads_per_chunk"]
+                n_, cs_ = sum(g), meta["parquet_pool"][1]
+                if bool(marks_) and marks_[0] == len(g) and n_ > cs_ + max(g):
+                    ctx.fail("c18-whole-input", "all %d row groups (%d rows) were requested for the first chunk of %d rows" % (len(g), n_, cs_),
+                             meta, case=i)
+            if c & (1 | 8 | 32):
+                ctx.disagree("Cases_C18:parquet-pool", i, dict(code=c, meta=meta))
             continue
         if "parquet" in meta and (c & 8) and not (c & 6):
             # rows and request order are right, but the row groups were not requested exactly when the model
@@ -329,6 +631,14 @@ def run(ctx):
                 ctx.fail("c18-whole-input", "all %d row groups (%d rows) were requested for the first chunk of %d rows" % (len(g), n_, cs_),
                          meta, case=i)
             ctx.disagree("Cases_C18:parquet-loads", i, dict(code=c, meta=meta))
+            continue
+        if meta.get("pool"):
+            # bits: 1 requests = model, 2 spec, 4 passes, 8 tasks = model, 16 requested = handed over, 32 raw slice length
+            if c & 2 or c & 4 or c & 32:
+                ctx.fail("c18-requests", "requests are not consecutive slices of at most the chunk size covering the source "
+                         "once per pass, with %d workers (code %d)" % (meta["effective_workers"], c), meta, case=i)
+            if c & 1 or c & 8 or c & 16:
+                ctx.disagree("Cases_C18:pool", i, dict(code=c, meta=meta))
             continue
         if c & 2 or c & 4 or c & 8:
             ctx.fail("c18-requests", "requests are not consecutive slices of at most the chunk size covering the source "
